@@ -33,7 +33,7 @@ RULE = ("quick: every single cut and every pair of cuts of 6 short streams (well
         "undeserialisable payload, garbage) + byte-by-byte and random chunkings of ~500 random cases (message lengths around max: max-1, max, "
         "max+1; truncations, prefix/byte mutations, garbage) + real p2panda messages (signed operations, TopicLogSyncMessage, "
         "TopicHandshakeMessage) with boundary maxima + default-maximum and u32 boundary prefixes + 4 GiB messages (size checks only); "
-        "thorough: same families, every triple of cuts for the shortest streams, ~5000 random cases, longer streams. "
+        "thorough: same families, every triple of cuts for the shortest streams, ~5000 random cases, streams up to ~3000 bytes. "
         "non-trivial = the stream is cut at least once and at least one message is decoded, or an error/refusal is observed")
 
 DEFAULT_MAX = 1024 * 1024 * 128
@@ -176,9 +176,10 @@ def gen(tier, rng):
         kind = "picky" if rng.random() < 0.3 else "raw"
         mx = rng.choice([0, 1, 2, 3, 5, 8, 16, 40, 255, 256, 300, "default", 2 ** 64 - 1]) if rng.random() < 0.8 else rng.randint(0, 70)
         mv = _maxv({"max": mx})
-        lmax = (70 if quick else 400) if rng.random() < 0.9 else (600 if quick else 1500)
-        # (a list literal beyond ~20k elements overflows coqtop's stack: keep streams below 10k bytes)
-        nm = 5 if quick else (9 if lmax <= 400 else 6)
+        lmax = (70 if quick else 300) if rng.random() < 0.9 else (600 if quick else 1400)
+        # (coqtop's stack overflows when reading back a result string beyond ~30k characters:
+        # keep the encoded stream below ~3000 bytes, the line shows it three times in hex)
+        nm = 5 if quick else (9 if lmax <= 300 else 2)
         c = _case(kind, mx, _rand_msgs(rng, min(mv, 10 ** 6), nm, lmax))
         if rng.random() < 0.45:
             c["stream"] = _mutate(rng, c)
